@@ -4,6 +4,8 @@ package main
 
 import (
 	"fmt"
+	"sync"
+	"time"
 
 	"github.com/bitcoin-sv/block-headers-service/domains"
 )
@@ -15,6 +17,8 @@ func init() { register("C19", runC19) }
 //         "log2 <decimal uint32>"   obs: "<decimal>"
 func runC19(c *Ctx) error {
 	seen := map[uint32]bool{}
+	var seqV []uint32
+	var seqObs []string
 	bits := func(v uint32, class string) {
 		if seen[v] {
 			return
@@ -22,9 +26,67 @@ func runC19(c *Ctx) error {
 		seen[v] = true
 		t := domains.CompactToBig(v)
 		w := domains.CalculateWork(v).BigInt()
-		c.Case(fmt.Sprintf("bits %d", v), fmt.Sprintf("%s %s", t.Text(16), w.Text(16)))
+		o := fmt.Sprintf("%s %s", t.Text(16), w.Text(16))
+		c.Case(fmt.Sprintf("bits %d", v), o)
 		c.Count("bits:" + class)
+		seqV, seqObs = append(seqV, v), append(seqObs, o)
 	}
+	// The functions are pure: the value for one argument does not depend on who else is computing at the same time
+	// (the service computes work in the per-peer goroutines and in the start-up import).  16 goroutines recompute the
+	// recorded arguments concurrently, each in another order; an answer that differs from the sequential one is
+	// emitted as one more case of that argument (the model then disagrees with it), a caller that does not come back
+	// within 30 s as "HANG".
+	defer func() {
+		type bad struct {
+			v uint32
+			o string
+		}
+		var mu sync.Mutex
+		var bads []bad
+		var wg sync.WaitGroup
+		n := len(seqV)
+		const ng = 16
+		per := c.Pick(4000, 40000)
+		for g := 0; g < ng; g++ {
+			wg.Add(1)
+			go func(g int) {
+				defer wg.Done()
+				for i := 0; i < per && i < n; i++ {
+					k := (g*7919 + i*(2*g+1)) % n
+					v := seqV[k]
+					o := func() (o string) {
+						defer func() {
+							if rec := recover(); rec != nil {
+								o = fmt.Sprintf("PANIC %v", rec)
+							}
+						}()
+						return fmt.Sprintf("%s %s", domains.CompactToBig(v).Text(16), domains.CalculateWork(v).BigInt().Text(16))
+					}()
+					if o != seqObs[k] {
+						mu.Lock()
+						if len(bads) < 20 {
+							bads = append(bads, bad{v, o})
+						}
+						mu.Unlock()
+					}
+				}
+			}(g)
+		}
+		done := make(chan struct{})
+		go func() { wg.Wait(); close(done) }()
+		select {
+		case <-done:
+		case <-time.After(30 * time.Second):
+			c.Case(fmt.Sprintf("bits %d", seqV[0]), "HANG concurrent-callers-did-not-return")
+		}
+		mu.Lock()
+		for _, b := range bads {
+			c.Case(fmt.Sprintf("bits %d", b.v), b.o)
+			c.Count("bits:concurrent-mismatch")
+		}
+		mu.Unlock()
+		c.Meta("c19_concurrent", fmt.Sprintf("%d goroutines x %d recomputations of recorded arguments, compared with the sequential answers", ng, per))
+	}()
 	mants := []uint32{0, 1, 2, 0x7f, 0x80, 0xff, 0x100, 0x7fff, 0x8000, 0xffff, 0x10000, 0x7ffffe, 0x7fffff}
 	for i := 0; i < 23; i++ {
 		mants = append(mants, 1<<uint(i))
